@@ -58,17 +58,22 @@ def run(ctx):
         ctx.sample(case["shape"])
         return
     quick = ctx.tier == "quick"
-    with cf.ThreadPoolExecutor(max_workers=3) as ex:
+    with cf.ThreadPoolExecutor(max_workers=4) as ex:
         f_m = ex.submit(tlc, ctx, "Interrealm_q.cfg" if quick else "Interrealm_t.cfg", timeout=1500, workers=4 if quick else None)
         f_e = ex.submit(tlc, ctx, "Interrealm_eph.cfg", timeout=600, workers=2)
+        f_c = ex.submit(tlc, ctx, "Interrealm_conv.cfg", timeout=600, workers=2)
         f_s = ex.submit(tlc, ctx, "Interrealm_shapes.cfg", tags=("EDGE",), timeout=900, workers=1)
-        rm, re_, rs = f_m.result(), f_e.result(), f_s.result()
+        rm, re_, rs, rc = f_m.result(), f_e.result(), f_s.result(), f_c.result()
     vlib.require_model_ok(rm, "Interrealm machine")
     ctx.add_tlc(rm, "machine: all call chains, depth<=%d" % (4 if quick else 5))
     # the named deviation switch must matter: without borrow rule #1 for /e/ packages the MODEL has a foreign write
     if re_.violated != "NoForeignWrite":
         raise vlib.Inconclusive("VACUOUS", "Interrealm_eph.cfg did not violate NoForeignWrite (%s / %s)" % (re_.violated, re_.error))
     ctx.add_tlc(re_, "deviation witness (EphemeralIsRealm=FALSE violates NoForeignWrite)")
+    # likewise the conversion guard: without it the MODEL re-types a victim object and a library method writes it
+    if rc.violated != "NoForeignWrite":
+        raise vlib.Inconclusive("VACUOUS", "Interrealm_conv.cfg did not violate NoForeignWrite (%s / %s)" % (rc.violated, rc.error))
+    ctx.add_tlc(rc, "deviation witness (ConvertGuard=FALSE violates NoForeignWrite)")
     vlib.require_model_ok(rs, "Interrealm shapes")
     ctx.add_tlc(rs, "shape enumeration")
     shapes = [t[0] for t in rs.traces if len(t) == 1 and t[0].get("act") == "Shape"]
@@ -82,15 +87,24 @@ def run(ctx):
         by = {}
         for s in shapes:
             by.setdefault((s["ctx"], s["cls"]), []).append(s)
-        sel = [s for s in shapes if s["path"] == "pcur"]
-        take = {"verdict": 5, "control": 2, "open": 2, "forbid": 1}
+        sel = [s for s in shapes if s["path"] in ("pcur", "swapown")]
+        take = {"verdict": 4, "control": 2, "open": 2, "forbid": 1}
+        libslice = ("cvSortSwap", "cvSortRev", "cvSortInts", "cvLibSet", "cvLibSwap", "cvStrSwap", "cvStrSort", "cvFlSwap", "cvFlSort", "cvNamedSortSwap", "cvUnnamedSort")
         for (c, cls), lst in sorted(by.items()):
-            lst = [s for s in lst if s["path"] != "pcur"]
+            lst = [s for s in lst if s["path"] not in ("pcur", "swapown")]
             rng.shuffle(lst)
-            sel += lst[:take[cls]]
+            plain = [s for s in lst if s.get("conv", "none") == "none"]
+            conv = [s for s in lst if s.get("conv", "none") != "none"]
+            sel += plain[:take[cls]]
+            if cls == "verdict":
+                # the "convert a victim-owned value, then mutate through the converted value" family: one write through a
+                # library method on a converted victim slice, one other conversion kind, per context
+                sel += [s for s in conv if s["wk"] in libslice][:1] + [s for s in conv if s["wk"] not in libslice][:1]
+            else:
+                sel += conv[:1]
         parts = [sel[0::2], sel[1::2]]
     else:
-        parts = [shapes[i::4] for i in range(4)]
+        parts = [shapes[i::6] for i in range(6)]
     tot, notes = {}, {"mismatch": [], "inert": [], "rejected": [], "flaky": [], "benign": []}
     with cf.ThreadPoolExecutor(max_workers=len(parts)) as ex:
         futs = []
@@ -107,6 +121,9 @@ def run(ctx):
                     "controls_mutated": tot.get("control_mutated", 0), "controls_inert": tot.get("control_inert", 0),
                     "open_mutated": tot.get("open_mutated", 0), "open_inert": tot.get("open_inert", 0),
                     "forbidden_operations_refused": tot.get("forbid_refused", 0),
+                    "conversion_shapes_executed": tot.get("conv_executed", 0), "conversion_to_library_type_executed": tot.get("conv_library_executed", 0),
+                    "write_through_converted_victim_slice_via_library_method": tot.get("conv_library_slice_executed", 0),
+                    "victim_own_write_through_converted_slice_observed": tot.get("ctl_swapown_mutated", 0),
                     "contexts_executed": tot.get("contexts_executed", 0), "flaky": tot.get("flaky", 0),
                     "exhaustive": not quick})
     for r in notes["rejected"][:5]:
@@ -129,10 +146,13 @@ def run(ctx):
         raise vlib.Inconclusive("VACUOUS", "negative controls did not mutate the victim (%d): the harness cannot observe a mutation" % tot.get("control_mutated", 0))
     if tot.get("forbid_refused", 0) < 10 and not bykey:
         raise vlib.Inconclusive("VACUOUS", "construction / realm-value persistence shapes were not exercised (%d refused)" % tot.get("forbid_refused", 0))
+    if not bykey and (tot.get("conv_library_slice_executed", 0) < 20 or tot.get("ctl_swapown_mutated", 0) < 1):
+        raise vlib.Inconclusive("VACUOUS", "writes through a converted victim-owned slice via a library method were not exercised (%d attack shapes on the VM, %d control mutations observed)" % (
+            tot.get("conv_library_slice_executed", 0), tot.get("ctl_swapown_mutated", 0)))
     if tot.get("contexts_executed", 0) < 25:
         raise vlib.Inconclusive("VACUOUS", "only %d attacker contexts executed" % tot.get("contexts_executed", 0))
     ctx.log("shapes run %d, executed %d, verdict blocked %d / ok-unchanged %d, controls mutated %d, open mutated %d, violations %s" % (
         n, executed, tot.get("verdict_blocked", 0), tot.get("verdict_ok_unchanged", 0), tot.get("control_mutated", 0), tot.get("open_mutated", 0), ctx.cov["violations_by_key"]))
     ctx.assumptions += ["the victim's Dump() renders every persisted field; raw comparison covers every committed oid: entry of the victim's package id (the #realm bookkeeping entry excluded); in the four _flush contexts the victim itself rewrites all its objects with their own values after the attack (so that an in-memory-only foreign write would be saved) and Dump() alone decides",
-                        "shapes are the grammar of spec/MCInterrealm.tla (34 contexts x 50 access paths x 73 write kinds, type-applicable combinations), not all Gno programs",
+                        "shapes are the grammar of spec/MCInterrealm.tla (34 contexts x 57 access paths x 105 write kinds incl. the convert-then-mutate family, type-applicable combinations), not all Gno programs",
                         "documented-open classes (top-level /p/ function or value-receiver /p/ method invoked by victim-authorised code; library method on a victim-owned receiver; closures minted by the victim) are negative controls, not verdicts"]
